@@ -340,3 +340,91 @@ fn probe_validated_payload_length() {
         }
     }
 }
+
+/// C04 (skipper): Some(c) => c == 16 + LEN and the rest starts there
+#[test]
+fn probe_consume_msg() {
+    use crate::parse::dlt_consume_msg;
+    let mut rng = Rng(seed());
+    for flags in 0u8..32 {
+        for extra in 0usize..6 {
+            for ecu_blank in [false, true] {
+                let htyp = (1u8 << 5) | flags;
+                let mut headers = 4usize;
+                for bit in [0x04u8, 0x08, 0x10] {
+                    if htyp & bit != 0 {
+                        headers += 4;
+                    }
+                }
+                if htyp & 1 != 0 {
+                    headers += 10;
+                }
+                let len = headers + extra;
+                let mut buf: Vec<u8> = Vec::new();
+                buf.extend_from_slice(b"DLT\x01");
+                buf.extend_from_slice(&[1, 2, 3, 4, 5, 6, 7, 8]);
+                buf.extend_from_slice(b"ECU\0");
+                buf.push(htyp);
+                buf.push(9);
+                buf.extend_from_slice(&(len as u16).to_be_bytes());
+                if htyp & 0x04 != 0 {
+                    buf.extend_from_slice(if ecu_blank { b"\0\0\0\0" } else { b"AB\0\0" });
+                }
+                while buf.len() < 16 + len + 5 {
+                    buf.push((rng.next() & 0xFF) as u8);
+                }
+                let total = buf.len();
+                let b2 = buf.clone();
+                let r = std::panic::catch_unwind(move || dlt_consume_msg(&b2).map(|(rest, c)| (rest.len(), c)));
+                match r {
+                    Err(_) => report("dlt_consume_msg", format!("bytes={}", hex(&buf)), "panic".into()),
+                    Ok(Ok((rest_len, Some(c)))) => {
+                        if c as usize != 16 + len || rest_len != total - (16 + len) {
+                            report("dlt_consume_msg", format!("LEN={} bytes={}", len, hex(&buf)), format!("consumed {} with {} bytes left; the message ends at {}", c, rest_len, 16 + len));
+                        }
+                    }
+                    Ok(other) => report("dlt_consume_msg", format!("LEN={} bytes={}", len, hex(&buf)), format!("{:?}", other)),
+                }
+            }
+        }
+    }
+}
+
+/// C15: Message::new post-state for every payload kind
+#[test]
+fn probe_message_new() {
+    use byteorder::{BigEndian, LittleEndian};
+    let payloads = vec![
+        PayloadContent::NonVerbose(7, vec![1, 2]),
+        PayloadContent::ControlMsg(ControlType::Request, vec![3]),
+        PayloadContent::Verbose(vec![]),
+        PayloadContent::NetworkTrace(vec![vec![1, 2, 3]]),
+        PayloadContent::NetworkTrace(vec![vec![], vec![9]]),
+    ];
+    for p in payloads {
+        for big in [false, true] {
+            for with_ext in [false, true] {
+                let conf = MessageConfig {
+                    version: 1,
+                    counter: 5,
+                    endianness: if big { Endianness::Big } else { Endianness::Little },
+                    ecu_id: Some("E".to_string()),
+                    session_id: Some(11),
+                    timestamp: None,
+                    payload: p.clone(),
+                    extended_header_info: if with_ext { Some(ExtendedHeaderConfig { message_type: MessageType::Log(LogLevel::Info), app_id: "A".into(), context_id: "C".into() }) } else { None },
+                };
+                let m = Message::new(conf, None);
+                let n = if big { p.as_bytes::<BigEndian>().len() } else { p.as_bytes::<LittleEndian>().len() };
+                let want_verbose = matches!(p, PayloadContent::Verbose(_) | PayloadContent::NetworkTrace(_));
+                let want_noar = match &p { PayloadContent::Verbose(a) => a.len(), PayloadContent::NetworkTrace(s) => s.len(), _ => 0 };
+                let ok_hdr = m.header.payload_length as usize == n && m.header.has_extended_header == with_ext && m.header.message_counter == 5
+                    && m.header.session_id == Some(11) && m.header.timestamp.is_none() && m.header.ecu_id.as_deref() == Some("E");
+                let ok_ext = match &m.extended_header { Some(e) => with_ext && e.verbose == want_verbose && e.argument_count as usize == want_noar, None => !with_ext };
+                if !(ok_hdr && ok_ext) {
+                    report("Message::new", format!("payload={:?} big={} ext={}", p, big, with_ext), format!("header={:?} ext={:?} (payload serialises to {} bytes, kind wants verbose={} noar={})", m.header, m.extended_header, n, want_verbose, want_noar));
+                }
+            }
+        }
+    }
+}
